@@ -404,6 +404,44 @@ func genRoute(quick bool, emit func(Data)) {
 	}
 }
 
+// family route-long: 5 (thorough: also 6) two-node ways in a chain, EVERY member
+// order. The joiner removes a matched segment from a list that it keeps in
+// two halves; with five or more members the match can sit deep in the first
+// half, which three-member routes never reach.
+func genRouteLong(quick bool, emit func(Data)) {
+	ks := []int{5}
+	if !quick {
+		ks = []int{5, 6}
+	}
+	for _, k := range ks {
+		for _, dirs := range []int{0, 0b010101 & (1<<uint(k) - 1), 1<<uint(k) - 1} {
+			for pi, perm := range perms(k) {
+				for tagMode := 0; tagMode < 2; tagMode++ {
+					d := Data{Family: "route-long", Name: fmt.Sprintf("route-long/k%d/dirs%b/perm%d/waytags%d", k, dirs, pi, tagMode)}
+					for j := 0; j < k; j++ {
+						ids := []int64{int64(11 + j), int64(12 + j)}
+						if dirs&(1<<uint(j)) != 0 {
+							ids = rev(ids)
+						}
+						var tags []Tag
+						if tagMode == 1 {
+							tags = []Tag{{"highway", "primary"}}
+						}
+						d.Ways = append(d.Ways, mkWay(int64(j+1), tags, metaPat(j, int64(j+1)), ids...))
+					}
+					rel := DRel{ID: 1, Tags: []Tag{{"type", "route"}, {"route", "bus"}}, Meta: metaPat(1, 1)}
+					for _, j := range perm {
+						rel.Members = append(rel.Members, DMember{Type: "way", Ref: int64(j + 1)})
+					}
+					d.Rels = append(d.Rels, rel)
+					nodesFor(&d, nil, 2)
+					emit(d)
+				}
+			}
+		}
+	}
+}
+
 // family route-topology: three member ways in other arrangements than a chain.
 func genRouteTopology(emit func(Data)) {
 	type topo struct {
@@ -636,6 +674,7 @@ func enumerate(quick bool) []Data {
 	genUnintKey(emit)
 	genWay(quick, emit)
 	genRoute(quick, emit)
+	genRouteLong(quick, emit)
 	genRouteTopology(emit)
 	genArea(emit)
 	genOther(emit)
